@@ -30,8 +30,8 @@ MUTANTS = [
 ]
 
 
-def build(u):
-    u.use_overlay('u22_encode.ctr')
+def encode_preamble(u, iters=True):
+    """types and specs of the writer side (shared with u24_roundtrip)"""
     prelude_types(u)
     u.prelude('common.rs')
     u.prelude('json_types_stub.rs')
@@ -64,9 +64,15 @@ def build(u):
     u.spec('bits.rs')
     u.spec('rmi_enc.rs')
     u.prelude('shim_encode.rs')
-    u.spec('name_iter.rs')
-    u.spec('section_iter.rs')
+    if iters:
+        u.spec('name_iter.rs')
+        u.spec('section_iter.rs')
     u.spec('encode.rs')
+
+
+def build(u):
+    u.use_overlay('u22_encode.ctr')
+    encode_preamble(u)
     # contracts proved elsewhere
     for g in ['get_file', 'get_source_root', 'get_debug_id', 'get_name']:
         import_method(u, T, r'SourceMap\b', g, 'types::SourceMap::' + g, 'u6_root.ctr', 'u6_root')
